@@ -75,7 +75,7 @@ def project(name, net, oms_list, expect=None):
         rec['oms'].append(dict(els=[ix[u] for u in o.el_id_list],
                                rev=pos[id(o.reversed_oms)] if getattr(o, 'reversed_oms', None) is not None else 0))
         bm = o.spectrum_bitmap
-        rec['maps'].append(dict(runs=runs_of(bm), n=len(bm.bitmap), nmin=bm.n_min, nmax=bm.n_max))
+        rec['maps'].append(dict(runs=runs_of(bm), n=len(bm.bitmap), nmin=bm.n_min, nmax=bm.n_max, naxis=len(bm.freq_index)))
         amps = [[[fidx(b['f_min'], 'lo'), fidx(b['f_max'], 'hi')] for b in sorted(bands_of(e), key=lambda x: x['f_min'])]
                 for e in o.el_list if isinstance(e, (Edfa, Multiband_amplifier))]
         rec['amps'].append(amps)
@@ -151,6 +151,61 @@ def replay_alignment(cases, chk):
                 if b['hi'] < max(x['hi'] for x in c['before']):
                     side.add('right')
             chk.violation(f'B2|align_grids|widen-{"+".join(sorted(side))}', dict(before=c['before'], model=c['after'], code=got))
+        else:
+            ok += 1
+    return ok
+
+
+def realign_records(chk):
+    """B3 for the alignment clause on the maps build_oms_list itself produces: build, occupy a few slots, give ONE map another
+    extent through OMS.update_spectrum, align the whole list (Trace_Align judges what comes out)"""
+    from gnpy.tools.json_io import load_network
+    from gnpy.tools.worker_utils import designed_network
+    from gnpy.topology.spectrum_assignment import build_oms_list, align_grids, BitmapValue
+    recs = []
+    plans = [(0, 3, 2), (5, 0, 4), (2, 6, 0), (7, -2, 5)] if chk.tier == 'thorough' else [(0, 3, 2), (5, 0, 4)]
+    eq = equipment()
+    for which, left, right in plans:
+        net = designed_network(eq, load_network(EX / 'meshTopologyExampleV2.json', eq))[0]
+        oms_list = build_oms_list(net, eq)
+        for k, o in enumerate(oms_list[:6]):
+            o.assign_spectrum(-200 + 16 * k, 4)
+        o = oms_list[which % len(oms_list)]
+        b = o.spectrum_bitmap
+        lo, hi = b.n_min - left, b.n_max + right            # a negative `left` shrinks the map from below
+        keep = [v for n, v in zip(b.freq_index, b.bitmap) if lo <= n <= hi]
+        newmap = [BitmapValue.UNUSABLE] * max(0, b.n_min - lo) + keep + [BitmapValue.UNUSABLE] * max(0, hi - b.n_max)
+        o.update_spectrum(freq(lo), freq(hi), guardband=b.guardband, grid=GRID, existing_spectrum=newmap)
+        before = [dict(lo=x.spectrum_bitmap.n_min, hi=x.spectrum_bitmap.n_max, runs=runs_of(x.spectrum_bitmap)) for x in oms_list]
+        name = f'meshTopologyExampleV2.json[map {which} re-ranged by -{left}/+{right}, then aligned]'
+        chk.case(('realign', which, left, right))
+        try:
+            align_grids(oms_list)
+        except Exception as e:                                  # noqa
+            chk.violation(f'B3|align_grids-raises|{type(e).__name__}', dict(network=name, exception=f'{type(e).__name__}: {e}'))
+            continue
+        after = [dict(lo=x.spectrum_bitmap.n_min, hi=x.spectrum_bitmap.n_max, n=len(x.spectrum_bitmap.bitmap),
+                      naxis=len(x.spectrum_bitmap.freq_index), uniq=len(set(x.spectrum_bitmap.freq_index)),
+                      runs=runs_of(x.spectrum_bitmap)) for x in oms_list]
+        recs.append(dict(name=name, before=before, after=after))
+    if not recs:
+        return 0
+    data = '\n'.join(json.dumps(r) for r in recs) + '\n'
+    res = tlc.run('Trace_Align', extra_files={'trace.ndjson': data}, env={'TRACE_FILE': 'trace.ndjson'}, workers=1,
+                  timeout=900, tag='c15-realign')
+    if not res.ok:
+        raise Machinery(f'Trace_Align failed: {res.error or res.violated}\n{res.out[-2000:]}')
+    chk.states += res.distinct
+    chk.transitions += res.generated
+    verdicts = {v['name']: v for v in res.emitted}
+    ok = 0
+    for r in recs:
+        v = verdicts.get(r['name'])
+        if v is None:
+            raise Machinery(f'Trace_Align: no verdict for {r["name"]}')
+        if v['viol']:
+            for c in sorted(v['viol']):
+                chk.violation(f'B3|realign|{c}', dict(network=r['name'], clause=c))
         else:
             ok += 1
     return ok
@@ -385,6 +440,7 @@ def run(chk):
     # ---- B3 shipped networks
     srecs = shipped_records(chk)
     chk.traces += judge(srecs, chk, 'B3')
+    chk.traces += realign_records(chk)
     chk.cov['b3_networks'] = len(srecs)
     chk.assume('band layouts whose amplifier bands merely touch (single common index) are outside the domain')
     chk.assume('networks without any ROADM (point-to-point transceiver lines) are outside the property: it speaks of OMS between ROADMs')
